@@ -321,6 +321,13 @@ def judge(m, layout, den, tempo, ongrid, bpm_at, site, case, ctx):
         ctx.check("write.raises", False, site=dict(site, exc=type(e).__name__), case=case, observed=f"{type(e).__name__}: {e}"[:300], expected="BMS bytes")
         return
     ctx.passed("write.raises")
+    # writing is an observation: the same object written again gives the same bytes
+    ctx.transition()
+    try:
+        again = m.write(rb.lib_layout(layout))
+        ctx.check("write.repeatable", again == data, site=dict(route=site.get("route")), case=case, observed=again[-300:].decode("latin1"), expected=data[-300:].decode("latin1"))
+    except Exception as e:
+        ctx.check("write.repeatable", False, site=dict(route=site.get("route"), exc=type(e).__name__), case=case, observed=f"{type(e).__name__}: {e}"[:300], expected="the same bytes")
     try:
         text = data.decode("shift_jis")
     except Exception as e:
@@ -385,18 +392,23 @@ def check_route(route, ctx):
     site = dict(route=route, devs=[])
     ctx.case()
     ctx.state(("bmsw-route", route), nontrivial=True)
+    twin = None
     try:
         if route.startswith("write/"):
-            # a stale cache would show here: write once, edit the SAME list objects in place, write again
-            m = starts.make("bms", "plain")
+            # a stale cache would show here: write once, edit the SAME list objects in place, write again;
+            # the expectation comes from a twin that gets the same edits but was never written before
+            def edit(x):
+                if "holds" in route:
+                    x.hits.offset += 2000
+                    x.holds.offset += 2000
+                    x.holds.length = x.holds.length * 2
+                else:
+                    x.bpms.bpm = x.bpms.bpm * 2
+            m, twin = starts.make("bms", "plain"), starts.make("bms", "plain")
             m.samples = {b"0A": b"a.wav"}
             m.write()
-            if "holds" in route:
-                m.hits.offset += 2000
-                m.holds.offset += 2000
-                m.holds.length = m.holds.length * 2
-            else:
-                m.bpms.bpm = m.bpms.bpm * 2
+            edit(m)
+            edit(twin)
         elif route == "read":
             m = BMSMap.read(starts.BMS_TEXT.split("\n"))
         elif route == "OsuToBMS":
@@ -408,9 +420,10 @@ def check_route(route, ctx):
     except Exception as e:
         ctx.check("setup", False, site=dict(site, exc=type(e).__name__), case=case, observed=f"{type(e).__name__}: {e}"[:300], expected="a chart")
         return
-    den = [("hit", int(c), float(t), 0.0, s) for t, c, s in zip(m.hits.offset.tolist(), m.hits.column.tolist(), m.hits.sample.tolist())]
-    den += [("hold", int(c), float(t), float(l), s) for t, c, l, s in zip(m.holds.offset.tolist(), m.holds.column.tolist(), m.holds.length.tolist(), m.holds.sample.tolist())]
-    tempo = sorted((float(t), float(b)) for t, b in zip(m.bpms.offset.tolist(), m.bpms.bpm.tolist()))
+    x = twin if twin is not None else m
+    den = [("hit", int(c), float(t), 0.0, s) for t, c, s in zip(x.hits.offset.tolist(), x.hits.column.tolist(), x.hits.sample.tolist())]
+    den += [("hold", int(c), float(t), float(l), s) for t, c, l, s in zip(x.holds.offset.tolist(), x.holds.column.tolist(), x.holds.length.tolist(), x.holds.sample.tolist())]
+    tempo = sorted((float(t), float(b)) for t, b in zip(x.bpms.offset.tolist(), x.bpms.bpm.tolist()))
 
     def bpm_at(t):
         return [b for tt, b in tempo if tt <= float(t) + 1e-9][-1] if tempo else 120.0
